@@ -704,7 +704,7 @@ package loadbalancer
 //@ ghost var lastIdleTimeout Int
 //@ func (*LoadBalancer).AddBackend
 //@   props C11 C05 C03 C12
-//@   requires adminOK(lb) && namesUnique(lb) && poolNonNil(lb)
+//@   requires adminOK(lb) && namesUnique(lb) && poolNonNil(lb) && sLen(lb.strategy) < 2147483647
 //@   requires 0 <= lb.config.Server.Timeouts.BackendDial && lb.config.Server.Timeouts.BackendDial < 8589934592 && 0 <= lb.config.Server.Timeouts.BackendRead
 //@             && lb.config.Server.Timeouts.BackendRead < 8589934592 && 0 <= lb.config.Server.Timeouts.BackendIdle && lb.config.Server.Timeouts.BackendIdle < 8589934592
 //@   ghost before AddBackend :: lastDialTimeout := dialTimeout
@@ -719,6 +719,16 @@ package loadbalancer
 //@   ensures names_stay_unique: namesUnique(lb)
 //@   ensures same_strategy: lb.strategy == old(lb.strategy)
 //@   ensures cells: bmCellsOK(lb.metricsCollector)
+//@   ensures pool_grows_by_exactly_one: sLen(lb.strategy) == old(sLen(lb.strategy)) + (result == nil ? 1 : 0)
+//@   ensures still_wired: lbOK(lb)
+//@   ensures locks_released: unlocked(lb.mutex) && unlocked(lb.metricsCollector.metrics.mutex)
+//@   ensures no_strategy_lock_held: noStrategyLocks()
+//@   ensures pool_well_formed_rr: dyntype(lb.strategy, *RoundRobinStrategy) ==> rrNonNil(asptr(lb.strategy, *RoundRobinStrategy))
+//@   ensures pool_well_formed_lc: dyntype(lb.strategy, *LeastConnectionsStrategy) ==> lcOK(asptr(lb.strategy, *LeastConnectionsStrategy))
+//@   ensures pool_well_formed_wrr: dyntype(lb.strategy, *WeightedRoundRobinStrategy) ==> wrrOK(asptr(lb.strategy, *WeightedRoundRobinStrategy))
+//@   ensures pool_well_formed_iph: dyntype(lb.strategy, *IPHashStrategy) ==> iphOK(asptr(lb.strategy, *IPHashStrategy))
+//@   ensures pool_well_formed_iphc: dyntype(lb.strategy, *IPHashConsistentStrategy) ==> iphcOK(asptr(lb.strategy, *IPHashConsistentStrategy))
+//@   ensures pool_entries_non_nil: poolNonNil(lb)
 //@   modifies RoundRobinStrategy.backends, LeastConnectionsStrategy.backends, WeightedRoundRobinStrategy.backends, IPHashStrategy.backends, IPHashConsistentStrategy.backends,
 //@            key:[]*loadbalancer.Backend, key:[]*loadbalancer.weightedBackend, mapof(lb.metricsCollector.metrics.BackendMetrics), metrics.BackendMetrics.IsHealthy, metrics.BackendMetrics.LastHealthCheck,
 //@            lastDialTimeout, lastHeaderTimeout, lastIdleTimeout
@@ -879,3 +889,46 @@ package loadbalancer
 //@   ensures lock_free_again: unlocked(lb.circuitBreaker.mutex)
 //@   modifies mapof(lb.metricsCollector.metrics.CircuitBreakerMetrics), metrics.CircuitBreakerMetrics.State, metrics.CircuitBreakerMetrics.FailureCount, metrics.CircuitBreakerMetrics.SuccessCount,
 //@            metrics.CircuitBreakerMetrics.RequestCount, metrics.CircuitBreakerMetrics.LastStateChange
+
+// ---------------------------------------------------------------------------------------------------
+// Construction (C18: an accepted configuration starts a working proxy or fails; never half-configured).
+// The three optional subsystems only set their own field of the new balancer (frame contracts; the clean-up
+// goroutines their constructors start are ghost events, verified nowhere).
+//@ func (*LoadBalancer).setupWebSocketPool
+//@   props C18
+//@   requires lb != nil && cfg != nil
+//@   modifies lb.wsPool
+//@ func (*LoadBalancer).setupRateLimiter
+//@   props C18
+//@   requires lb != nil && cfg != nil
+//@   modifies lb.rateLimiter
+//@ pred cfgBreakerInRange(c *config.Config) := 0 <= c.CircuitBreaker.IntervalSeconds && c.CircuitBreaker.IntervalSeconds < 8589934592
+//@      && 0 <= c.CircuitBreaker.TimeoutSeconds && c.CircuitBreaker.TimeoutSeconds < 8589934592
+//@ func (*LoadBalancer).setupCircuitBreaker
+//@   props C18
+//@   requires lb != nil && cfg != nil && cfgBreakerInRange(cfg)
+//@   modifies lb.circuitBreaker
+//@ func createHealthChecker
+//@   inline
+//@ func (*LoadBalancer).startHealthChecks
+//@   inline
+
+//@ pred cfgTimeoutsInRange(c *config.Config) := 0 <= c.Server.Timeouts.BackendDial && c.Server.Timeouts.BackendDial < 8589934592 && 0 <= c.Server.Timeouts.BackendRead
+//@      && c.Server.Timeouts.BackendRead < 8589934592 && 0 <= c.Server.Timeouts.BackendIdle && c.Server.Timeouts.BackendIdle < 8589934592
+//@ func NewLoadBalancer
+//@   props C18
+//@   results lb, err
+//@   requires cfg != nil && cfgTimeoutsInRange(cfg) && cfgBreakerInRange(cfg) && len(cfg.Backends) < 2147483647 && noStrategyLocks()
+//@   ensures every_configured_backend_is_in_the_pool_or_construction_fails: err == nil ==> lb != nil && sLen(lb.strategy) == len(cfg.Backends)
+//@   ensures error_means_no_balancer: err != nil ==> lb == nil
+//@   modifies *
+//@ loop NewLoadBalancer #0
+//@   props C18
+//@   invariant idx: rangeindex < len(ranged)
+//@   invariant configuration_kept: len(ranged) == len(cfg.Backends)
+//@   invariant added_so_far: sLen(lb.strategy) == rangeindex + 1
+//@   invariant operable: lb != nil && lb.config == cfg && adminOK(lb) && namesUnique(lb) && poolNonNil(lb) && cfgTimeoutsInRange(cfg)
+//@   decreases len(ranged) - rangeindex
+//@   modifies RoundRobinStrategy.backends, LeastConnectionsStrategy.backends, WeightedRoundRobinStrategy.backends, IPHashStrategy.backends, IPHashConsistentStrategy.backends,
+//@            key:[]*loadbalancer.Backend, key:[]*loadbalancer.weightedBackend, mapof(lb.metricsCollector.metrics.BackendMetrics), metrics.BackendMetrics.IsHealthy, metrics.BackendMetrics.LastHealthCheck,
+//@            lastDialTimeout, lastHeaderTimeout, lastIdleTimeout
